@@ -84,7 +84,13 @@ T_SB = ('st', 'SB', [T_BOOL, T_int('uint16'), T_int('Level')])
 T_SN = ('st', 'SN', [T_flt('float64'), T_ptr(T_int('int')), T_ANY, T_sl(T_int('int')), T_mp(T_STR, T_int('int')), T_ar(2, T_int('int8'))])
 T_SS = ('st', 'SS', [T_S1, T_ptr(T_S1), T_flt('float32')])
 T_ISTR = ('if', 'IStr', [T_int('Level'), T_int('ULevel'), T_flt('Temp'), ('st', 'SP', [T_int('int'), T_STR])])
-T_ERR = ('if', 'error', [T_int('Errno')])
+_ERR_DYN = [T_int('Errno')]
+T_ERR = ('if', 'error', _ERR_DYN)
+T_ERRS = ('st', 'ErrS', [T_STR])
+T_ERRW = ('st', 'ErrW', [T_STR, T_ERR])
+T_ERRIS = ('st', 'ErrIs', [T_int('int'), T_STR])
+T_ERRC = ('st', 'ErrC', [T_STR, T_ANY])
+_ERR_DYN += [('p', '*ErrS', T_ERRS), ('p', '*ErrW', T_ERRW), T_ERRIS, T_ERRC]
 T_E0 = ('st', 'E0', [])
 T_U8 = ('int', 'uint8', 8, False)
 T_BYTES = ('sl', '[]uint8', T_U8)
@@ -230,7 +236,7 @@ class Gen:
                 return ['p', name(t), 'nil']
             return ['p', name(t), '0'] + self.value(t[2], depth + 1)
         if k == 'if':
-            if allow_nil and r.chance(1, 4):
+            if (allow_nil and r.chance(1, 4)) or depth >= 4:
                 return ['if', name(t), 'nil']
             dyn = r.choice(t[2] if t[2] else (ANY_DYN if depth < 2 else PLAIN_DYN))
             return ['if', name(t)] + self.value(dyn, depth + 1)
@@ -759,6 +765,40 @@ def gen_ops(tier, rng):
     add(ev_line([T_S1], ['eq'] + arg_tokens(['st', 'S2', '2'] + g.int_term(T_int('int'), 1) + g.str_term(T_STR, 'a')),
                 [[['st', 'S1', '2'] + g.int_term(T_int('int'), 1) + g.str_term(T_STR, 'a')]]), 'x')
     add(ev_line([T_ar(2, T_int('int8'))], ['eq', 'nil'], [[['ar', '[2]int8', '2'] + g.int_term(T_int('int8'), 0) + g.int_term(T_int('int8'), 0)]]), 'x')
+
+    # ---- lane 14: error values — sentinels (pointer identity), %w-style wrappers of a shared sentinel, chains of wrappers, errors with an
+    # Is method that ignores a field, comparable struct errors with an interface field holding a slice; through `error`, interface{} and
+    # the concrete types; as Equals and as In alternatives (Go equality on same-dynamic-type values, symmetry, no panic)
+    ES = lambda lab, msg: ['p', '*ErrS', str(lab), 'st', 'ErrS', '1'] + g.str_term(T_STR, msg)
+    EW = lambda lab, msg, inner: ['p', '*ErrW', str(lab), 'st', 'ErrW', '2'] + g.str_term(T_STR, msg) + (['if', 'error'] + inner if inner else ['if', 'error', 'nil'])
+    EI = lambda code, note: ['st', 'ErrIs', '2'] + g.int_term(T_int('int'), code) + g.str_term(T_STR, note)
+    EC = lambda msg, det: ['st', 'ErrC', '2'] + g.str_term(T_STR, msg) + (['if', 'any'] + det if det else ['if', 'any', 'nil'])
+    sli2 = lambda vs: ['sl', '[]int', '0', str(len(vs))] + [tok for v in vs for tok in g.int_term(T_int('int'), v)]
+    for rep_ in range(1 if tier == 'quick' else 6):
+        l1, l2, l3, l4 = (g.fresh_label() for _ in range(4))
+        s1, s1b, s3 = ES(l1, 'EOF'), ES(l2, 'EOF'), ES(l3, 'closed')
+        w1 = EW(0, 'read', s1)
+        w1lab = EW(l4, 'read', s1)
+        fams = [
+            [s1, s1b, s3, w1, EW(0, 'read', s1b), EW(0, 'open', w1), EW(0, 'read', None), w1lab, EW(0, 'outer', w1lab)],
+            [EI(1, 'a'), EI(1, 'a'), EI(1, 'b'), EI(2, 'a'), EI(rng.below(3), rng.choice(['a', 'b']))],
+            [EC('m', sli2([1])), EC('m', sli2([1])), EC('m', sli2([2])), EC('m', g.int_term(T_int('int'), 5)), EC('m', None), EC('n', sli2([1])),
+             EC('m', ['mp', 'map[string]int', '0', '0'])],
+            [g.int_term(T_int('Errno'), 5), g.int_term(T_int('Errno'), 6), g.int_term(T_int('Errno'), 0)],
+        ]
+        for fam in fams:
+            for x in fam:
+                add(ev_line([T_ERR], ['eq'] + arg_tokens(x), [[a] for a in fam] + [[None]]), 'wt')
+                add(ev_line([T_ANY], ['eq'] + arg_tokens(x), [[a] for a in fam]), 'wt')
+            k = min(3, len(fam))
+            expr = ['in', str(k)]
+            for a in fam[:k]:
+                expr += ['c', 'v'] + arg_tokens(a)
+            add(ev_line([T_ERR], expr, [[a] for a in fam]), 'wt')
+        for ct, fam in ((('p', '*ErrW', T_ERRW), fams[0][3:]), (T_ERRIS, fams[1]), (T_ERRC, fams[2]), (('p', '*ErrS', T_ERRS), fams[0][:3])):
+            for x in fam:
+                add(ev_line([ct], ['eq'] + arg_tokens(x), [[a] for a in fam]), 'wt')
+        add(ev_line([T_ERR], ['eq', 'nil'], [[None], [s1], [w1]]), 'wt')
 
     # ---- lane 5: cross-typed and malformed (agreement with the model only; panics/errors are observations)
     n5 = 120 * scale
